@@ -117,8 +117,12 @@ class Solved:
         try:
             T = exact.max_expected_steps(g)
         except OracleError:
+            # the input game is stopping, so is its conditioned game (DESIGN 3/C02); a reward loop over a
+            # game with infinite expected absorption time cannot be bounded and is reported at once
             self.iterated_not_stopping = True
-            return sweep_bound(t_limit(len(state_list)), self.facts.R)
+            from .budget import BudgetExceeded
+            raise BudgetExceeded("the game the total-reward loop iterates is not stopping although the input game "
+                                 "is (some play is never absorbed), so the loop has no derived bound")
         self.iterated_T = T
         lim = 2 * t_limit(len(state_list))
         if T > lim:
@@ -246,7 +250,8 @@ def reward_phase_budget_generic(state_list):
     try:
         T = exact.max_expected_steps(g)
     except OracleError:
-        return sweep_bound(T_MAX, R)
+        from .budget import BudgetExceeded
+        raise BudgetExceeded("the game the total-reward loop iterates is not stopping (some play is never absorbed)")
     lim = 2 * t_limit(len(state_list))
     if T > lim:
         raise SkipSolve(f"conditioned game has T={float(T):.0f} > {lim}")
